@@ -132,79 +132,82 @@ def _ev_with_funcs(ctx):
 
 
 def plane_normal(ctx):
+    """plane_crystal_to_cartesian interpreted end to end: concrete integer indices in all 26 zero/sign patterns on a symbolic cell; the result is compared with the
+    reciprocal-lattice direction h·(b×c) + k·(c×a) + l·(a×b) (right-handed cell), which does not depend on how the function picks its in-plane vectors"""
+    import math
     outer = ctx.fn(MIL, 'plane_crystal_to_cartesian')
-    inner = [n for n in outer.body if isinstance(n, ast.FunctionDef)]
-    ctx.need(len(inner) == 1, 'plane_crystal_to_cartesian: the single-plane helper is no longer a nested function')
-    inner = inner[0]
     loc = MIL + '::plane_crystal_to_cartesian'
     V = symarray('v', (3, 3), real=True)
+    NRM = sp.Function('nrm')
 
     class B(PyStub):
-        vects = V
-    H = [sp.Symbol(n, positive=True, integer=True) for n in 'HKL']
+        def __init__(self, hexagonal=False):
+            self.hexagonal = hexagonal
+
+        @property
+        def vects(self):
+            return V.copy()
+
+        def ishexagonal(self, *a, **k):
+            return self.hexagonal
+
+    def norm_(v, **k):
+        v = [sp.expand(x) for x in np.ravel(v)]
+        return NRM(*v)
+
+    def run(idx, box=None):
+        ev = SymEval(module_aliases(ctx.mod(MIL)))
+        ev.np_override = {'numpy.lcm': lambda a, b: sp.Integer(math.lcm(int(a), int(b))), 'numpy.lcm.reduce': lambda a: sp.Integer(math.lcm(*[int(x) for x in a])), 'numpy.linalg.norm': norm_,
+                          'numpy.allclose': lambda a, b, **k: all(sp.simplify(sp.sympify(x) - sp.sympify(y)) == 0 for x, y in zip(np.ravel(np.asarray(a, dtype=object)), np.ravel(np.asarray(b, dtype=object))))}
+        try:
+            live = [q for q in ev.run_fn(outer, [idx, box or B()], {}) if q.done == 'return']
+        except WouldRaise as e:
+            return None, str(e)
+        except Opaque as e:
+            raise AnalysisError('plane_crystal_to_cartesian(%s): %s' % (idx, e))
+        return (live[0].ret, '') if len(live) == 1 else (None, '%d returning paths' % len(live))
+    cof = [np.cross(V[1], V[2]), np.cross(V[2], V[0]), np.cross(V[0], V[1])]
+    mags = (2, 3, 5)
     n = 0
     for pat in itertools.product((-1, 0, 1), repeat=3):
         if pat == (0, 0, 0):
             continue
         n += 1
-        idx = arr([sp.Integer(0) if p == 0 else p * H[i] for i, p in enumerate(pat)])
-        tag = '(%s)' % ' '.join({-1: '-' + 'hkl'[i], 0: '0', 1: 'hkl'[i]}[p] for i, p in enumerate(pat))
-        ev = SymEval(module_aliases(ctx.mod(MIL)))
-        lcm_args = []
-        M = sp.Symbol('m', positive=True, integer=True)
-        NRM = sp.Symbol('nrm', positive=True)
-
-        def lcm(*a):
-            lcm_args.extend(list(a))
-            return M
-
-        def lcm_reduce(a):
-            lcm_args.extend(list(a))
-            return M
-        ev.np_override = {'numpy.lcm': lcm, 'numpy.lcm.reduce': lcm_reduce, 'numpy.linalg.norm': lambda v: NRM}
-        try:
-            paths = ev.run_fn(inner, [idx, B()], {})
-        except WouldRaise as e:
-            ctx.ob('PLANE-NORMAL', loc, '%s: a normal is produced' % tag, False, str(e), node=inner, key=tag)
+        hkl = [p_ * m_ for p_, m_ in zip(pat, mags)]
+        tag = '(%s)' % ' '.join(str(x) for x in hkl)
+        got, why = run(arr(hkl))
+        if got is None or np.shape(got) != (3,):
+            ctx.ob('PLANE-NORMAL', loc, '%s: a normal is produced' % tag, False, why, node=outer, key=tag)
             continue
-        except Opaque as e:
-            raise AnalysisError('plane normal %s: %s' % (tag, e))
-        live = [p for p in paths if p.done == 'return']
-        if len(live) != 1:
-            ctx.ob('PLANE-NORMAL', loc, '%s: a normal is produced' % tag, False, '%d returning paths' % len(live), node=inner, key=tag)
-            continue
-        env = live[0].env
-        a, b, s, m = env.get('a_uvw'), env.get('b_uvw'), env.get('s'), env.get('m')
-        ctx.need(a is not None and b is not None and s is not None, 'plane normal helper no longer names its two lattice vectors a_uvw, b_uvw and the sign s')
-        hkl = [sp.sympify(v) for v in idx]
-        za = sp.simplify(sum(x * y for x, y in zip(a, hkl)))
-        zb = sp.simplify(sum(x * y for x, y in zip(b, hkl)))
-        cr = [sp.simplify(s * c) for c in np.cross(a, b)]
-        par = all(sp.simplify(c) == 0 for c in np.cross(arr(cr), arr(hkl)))
-        dot = sp.simplify(sum(x * y for x, y in zip(cr, hkl)))
-        pos = bool(dot.is_positive)
-        ctx.ob('PLANE-NORMAL', loc, '%s: both chosen lattice vectors lie in the plane (zone law) and s·(a×b) is a positive multiple of (h,k,l): the normal points along +g' % tag, za == 0 and zb == 0 and par and pos,
-               'h·a = %s, h·b = %s, s(a×b) = %s, (s a×b)·hkl = %s' % (za, zb, cr, dot), node=inner, key=tag)
-        # integer lattice vectors: every index used as a divisor is an argument of the lcm
-        divisors = set()
-        for comp in list(a) + list(b):
-            comp = sp.sympify(comp)
-            num, den = sp.fraction(sp.together(comp))
-            divisors |= {sy for sy in den.free_symbols}
-        need_m = bool(divisors)
-        okm = (not need_m) or ({sy for x in lcm_args for sy in sp.sympify(x).free_symbols} >= divisors and m == M)
-        ctx.ob('PLANE-NORMAL', loc, '%s: the in-plane vectors are integer: every index they divide by is covered by the least common multiple' % tag, okm, 'divisors %s, lcm of %s, m = %s' % (divisors, lcm_args, m), node=inner, key=tag + ' integer')
-        got = live[0].ret
-        want = s * np.cross(arr(list(a)).dot(V), arr(list(b)).dot(V)) / NRM
-        ctx.ob('PLANE-NORMAL', loc, '%s: the result is the normalised s·(a·cell)×(b·cell)' % tag, got is not None and equal(got, want, deep=False), node=inner, key=tag + ' formula')
+        G = sum(h_ * c_ for h_, c_ in zip(hkl, cof))
+        cr = np.cross(np.asarray(got, dtype=object), G)
+        par = all(is_zero(sp.expand(sp.together(x).as_numer_denom()[0]), deep=False) for x in cr)
+        # the common factor got = r·G: r = (positive rational)/|…|
+        ratios = [sp.cancel(sp.together(got[i] / G[i])) for i in range(3)]
+        r0 = ratios[0]
+        same = all(sp.simplify(r_ - r0) == 0 for r_ in ratios)
+        nrm_atoms = list(sp.sympify(r0).atoms(sp.Function))
+        unit = False
+        pos = False
+        if same and len(nrm_atoms) == 1:
+            coef = sp.simplify(r0 * nrm_atoms[0])                      # a number: r0 = coef / |w|
+            w = [sp.expand(x) for x in nrm_atoms[0].args]
+            pos = bool(coef.is_number and coef > 0)
+            unit = pos and all(sp.expand(coef * G[i] - w[i]) == 0 for i in range(3)) if coef.is_number else False    # the vector that was normalised is coef·G itself
+        ctx.ob('PLANE-NORMAL', loc, '%s: the result is the unit vector along +(h·b×c + k·c×a + l·a×b), the reciprocal-lattice vector of the plane (both in-plane lattice vectors obey the zone law, are integer, and the sense is +g)' % tag,
+               bool(par and same and pos and unit), 'parallel %s, one common factor %s, positive %s, normalised by its own length %s; factor %s' % (par, same, pos, unit, r0), node=outer, key=tag)
     ctx.floor('PLANE-NORMAL', n, 26)
-    # all-zero refused
-    paths = SymEval(module_aliases(ctx.mod(MIL))).run_fn(inner, [arr([0, 0, 0]), B()], {})
-    ctx.ob('PLANE-NORMAL', loc, '(000) is refused', not [p for p in paths if p.done == 'return'], node=inner, key='000')
-    # outer guards: structure
-    txt = norm(outer)
-    ctx.ob('PLANE-NORMAL', loc, 'non-integer indices are refused; four indices need a hexagonal cell and are reduced with plane4to3; the helper is applied along the last axis',
-           'Indices must be integers' in txt and 'plane4to3(indices)' in txt and 'box.ishexagonal()' in txt and 'np.apply_along_axis(plane_cryst_2_cart, -1, indices, box)' in txt.replace(inner.name, 'plane_cryst_2_cart'), node=outer, key='outer')
+    # batches, Miller-Bravais input, refusals
+    got, why = run(arr([[2, 3, 5], [0, -3, 0]]))
+    one, _w = run(arr([2, 3, 5]))
+    two, _w = run(arr([0, -3, 0]))
+    ctx.ob('PLANE-NORMAL', loc, 'a stack of planes is converted plane by plane (leading shape kept)', got is not None and np.shape(got) == (2, 3) and one is not None and two is not None and equal(np.asarray(got[0], dtype=object), np.asarray(one, dtype=object), deep=False)
+           and equal(np.asarray(got[1], dtype=object), np.asarray(two, dtype=object), deep=False), why, node=outer, key='stack')
+    got4, why = run(arr([2, 3, -5, 7]), B(hexagonal=True))
+    got3, _w = run(arr([2, 3, 7]), B(hexagonal=True))
+    ctx.ob('PLANE-NORMAL', loc, 'four indices (hkil) on a hexagonal cell give the normal of (hkl)', got4 is not None and got3 is not None and equal(np.asarray(got4, dtype=object), np.asarray(got3, dtype=object), deep=False), why, node=outer, key='hkil')
+    verd = [('(000)', run(arr([0, 0, 0]))[0]), ('four indices on a non-hexagonal cell', run(arr([2, 3, -5, 7]), B(hexagonal=False))[0]), ('non-integer indices', run(arr([sp.Rational(1, 2), 1, 0]))[0]), ('two indices', run(arr([1, 2]))[0])]
+    ctx.ob('PLANE-NORMAL', loc, '(000), four indices on a non-hexagonal cell, non-integer indices and a wrong number of indices are refused', all(v is None for t_, v in verd), str([t_ for t_, v in verd if v is not None]), node=outer, key='refusals')
 
 
 def util(ctx):
@@ -323,6 +326,9 @@ def family(ctx):
         pvals = dict(zip(('a', 'b', 'c', 'alpha', 'beta', 'gamma'), exp_l + exp_a))
         for rel, owner in ((BOX, 'Box.'), (CS, '')):
             def isclose(x, y, **k):
+                if is_arr(x) or is_arr(y) or isinstance(x, (list, tuple)) or isinstance(y, (list, tuple)):
+                    X, Y = np.broadcast_arrays(np.asarray(x, dtype=object), np.asarray(y, dtype=object))
+                    return np.array([bool(sp.simplify(sp.sympify(a_) - sp.sympify(b_)) == 0) for a_, b_ in zip(X.ravel(), Y.ravel())]).reshape(X.shape)
                 return sp.simplify(sp.sympify(x) - sp.sympify(y)) == 0
             res = {}
             mod = ctx.mod(rel)
